@@ -4,7 +4,7 @@
 # (vacuity guard: a unit that silently extracts nothing cannot pass).
 UNITS = {
     'quorum': {'template': 'units/quorum/unit.rs', 'serves': ['C03', 'C06', 'C09'], 'min_verified': 30},
-    'slot_state': {'template': 'units/slot_state/unit.rs', 'serves': ['C04'], 'min_verified': 48},
+    'slot_state': {'template': 'units/slot_state/unit.rs', 'serves': ['C03', 'C04', 'C06'], 'min_verified': 88},
 }
 
 # property -> what decides it
